@@ -961,6 +961,47 @@ func main() {
 			return true
 		})
 	}
+	// the --force flag: exactly one binding, rootCmd.PersistentFlags().BoolVar(&force, "force", false, ...),
+	// and `force` is never assigned or has its address taken anywhere else
+	forceBindings, forceOther := 0, 0
+	for _, f := range files {
+		ast.Inspect(f, func(x ast.Node) bool {
+			switch n := x.(type) {
+			case *ast.CallExpr:
+				sel, ok := n.Fun.(*ast.SelectorExpr)
+				if ok && sel.Sel.Name == "BoolVar" && len(n.Args) == 4 && show(n.Args[0]) == "&force" {
+					if show(sel.X) == "rootCmd.PersistentFlags()" && show(n.Args[1]) == "\"force\"" && show(n.Args[2]) == "false" {
+						forceBindings++
+					} else {
+						forceOther++
+						problem("%s: unexpected binding of the force variable: %s", pos(n), show(n))
+					}
+					return false
+				}
+			case *ast.UnaryExpr:
+				if n.Op == token.AND && show(n.X) == "force" {
+					forceOther++
+					problem("%s: address of force taken", pos(n))
+				}
+			case *ast.AssignStmt:
+				for _, l := range n.Lhs {
+					if show(l) == "force" {
+						forceOther++
+						problem("%s: assignment to force", pos(n))
+					}
+				}
+			case *ast.IncDecStmt:
+				if show(n.X) == "force" {
+					forceOther++
+				}
+			}
+			return true
+		})
+	}
+	forceOK := forceBindings == 1 && forceOther == 0
+	if forceBindings != 1 {
+		problem("expected exactly one rootCmd.PersistentFlags().BoolVar(&force, \"force\", false, ...), found %d", forceBindings)
+	}
 	for _, g := range []string{gFile, gDir, gDirOrFile, "runCommand", "commands"} {
 		if funcs[g] == nil {
 			problem("function %s not found in %s", g, dir)
@@ -1027,6 +1068,7 @@ func main() {
 	b.WriteString("   One row per cobra command whose Use string names an out* placeholder. *)\n")
 	b.WriteString("From Coq Require Import String List NArith.\nFrom PV Require Import C04.Model.\nImport ListNotations.\nOpen Scope string_scope.\nOpen Scope N_scope.\n\n")
 	fmt.Fprintf(&b, "Definition n_commands : N := %d.\nDefinition n_runnable : N := %d.\n\n", nCommands, nRunnable)
+	fmt.Fprintf(&b, "(* root.go: rootCmd.PersistentFlags().BoolVar(&force, \"force\", false, ...) is the only binding of / assignment to `force` *)\nDefinition force_flag_ok : bool := %v.\n\n", forceOK)
 	b.WriteString("Definition table : list row := [\n")
 	for i, r := range rows {
 		kind := map[string]string{"file": "OFile", "dir": "ODir", "dirfile": "ODirFile"}[r.Kind]
